@@ -927,3 +927,14 @@ func RandIdent(r *core.Rand) string {
 	}
 	return string(b)
 }
+
+// SimpleFile: a proto3 file with one message holding one int32 field.
+func SimpleFile(path, pkg, msg string) *descriptorpb.FileDescriptorProto {
+	return &descriptorpb.FileDescriptorProto{Name: proto.String(path), Package: proto.String(pkg), Syntax: proto.String("proto3"),
+		MessageType: []*descriptorpb.DescriptorProto{{Name: proto.String(msg), Field: []*descriptorpb.FieldDescriptorProto{{Name: proto.String("x"), Number: proto.Int32(1), Label: descriptorpb.FieldDescriptorProto_LABEL_OPTIONAL.Enum(), Type: descriptorpb.FieldDescriptorProto_TYPE_INT32.Enum(), JsonName: proto.String("x")}}}}}
+}
+
+// BuildFile builds a self-contained file.
+func BuildFile(p *descriptorpb.FileDescriptorProto) (protoreflect.FileDescriptor, error) {
+	return protodesc.NewFile(p, nil)
+}
